@@ -1,5 +1,6 @@
 import TfPwaV.Model.LS
 import TfPwaV.Gen.KinF
+import TfPwaV.Gen.DalitzF
 import TfPwaV.Model.WignerF
 /-! Line-protocol driver: one op per input line, one answer line per op. -/
 open TfPwaV
@@ -9,6 +10,7 @@ def dispatch (ws : List String) : String :=
   | "C13" :: rest => (LS.handle rest).getD "bad-op"
   | "C12" :: rest => (WignerF.handle rest).getD "bad-op"
   | "C11" :: rest => (KinF.handle rest).getD "bad-op"
+  | "C11d" :: rest => (DalitzF.handle rest).getD "bad-op"
   | _ => "bad-op"
 
 partial def loop (h : IO.FS.Stream) (out : IO.FS.Stream) : IO Unit := do
